@@ -129,7 +129,7 @@ bool Component::ComponentImpl::performTestWithHistory(History &history, const Co
         }
 
         auto h = createHistoryEpoch(component, importeeModelUrl(history, mComponent->importSource()->url()));
-        if (checkForImportCycles(history, h)) {
+        if (checkForRepeatedEntity(history, h)) {
             return false;
         }
 
